@@ -23,6 +23,28 @@ def new_module(src):
     return m
 
 
+def new_modules(model):
+    """surface models (model['surface']): one Python module per module of the program, lowest first;
+    returns a namespace holding every definition by name (for building instances)"""
+    n = model['surface']['n_mod']
+    names = []
+    for _ in range(n):
+        _mod_n[0] += 1
+        names.append('vmod_%d' % _mod_n[0])
+    merged = types.SimpleNamespace()
+    for name, src in zip(names, G.model_sources(model, names)):
+        m = types.ModuleType(name)
+        sys.modules[name] = m
+        exec(compile(src, '<%s>' % name, 'exec'), m.__dict__)
+        for k, v in m.__dict__.items():
+            if getattr(v, '__module__', None) == name:
+                setattr(merged, k, v)
+    for k in ('Color', 'Num'):
+        setattr(merged, k, getattr(sys.modules[names[0]], k))
+    merged.__sources__ = G.model_sources(model, names)
+    return merged
+
+
 # ---------------------------------------------------------------------------------- values <-> trees
 def tree_of(v):
     if v is None:
@@ -257,7 +279,9 @@ def do_model(model):
     from dataclass_wizard.loader_selection import _get_load_fn_for_dataclass
     res = {'gen_err': None, 'fns': {}, 'inst': [], 'docs': [], 'oracle': [], 'setup_err': None, 'history': []}
     try:
-        mod = new_module(G.model_source(model))
+        mod = new_modules(model) if model.get('surface') else new_module(G.model_source(model))
+        if model.get('surface'):
+            res['sources'] = [x[x.index('from typing_extensions'):][-3000:] for x in mod.__sources__]
         root = getattr(mod, model['classes'][model.get('root', 0)]['name'])
         kw = {'v1': True}
         if model.get('key_case'):
@@ -278,6 +302,11 @@ def do_model(model):
         res['keys'] = field_keys(model)
     except BaseException as e:  # noqa
         res['setup_err'] = '%s: %s' % (type(e).__name__, traceback.format_exc()[-1500:])
+        if model.get('surface'):
+            try:
+                res['setup_err'] += '\n' + '\n'.join(x[x.index('from typing_extensions'):] for x in G.model_sources(model, ['m%d' % i for i in range(9)]))[-2500:]
+            except BaseException as e2:  # noqa
+                res['setup_err'] += '\n(sources: %s)' % e2
         return res
     model['_keys'] = res['keys']
     # ---- loader generation (direct predicate: never raises) + hook H1
